@@ -54,10 +54,17 @@ fn partial<T: Trace + Clone + PartialOrd + Debug + 'static>(ty: &str, vals: &[T]
                 cmp2!("gt", |x: &Cc<T>, y: &Cc<T>| x > y, |x: &T, y: &T| x > y);
                 cmp2!("ge", |x: &Cc<T>, y: &Cc<T>| x >= y, |x: &T, y: &T| x >= y);
                 cmp2!("partial_cmp", |x: &Cc<T>, y: &Cc<T>| x.partial_cmp(y), |x: &T, y: &T| x.partial_cmp(y));
-                st.evaluations += 1;
-                let dbg_ok = format!("{:?}", ca) == format!("{:?}", a) && format!("{:#?}", cb) == format!("{:#?}", b);
+                st.evaluations += 2;
+                let dbg_ok = format!("{:?}", ca) == format!("{:?}", a) && format!("{:#?}", cb) == format!("{:#?}", b) && format!("{:#?}", ca) == format!("{:#?}", a) && format!("{:>12?}|{:<12?}", ca, cb) == format!("{:>12?}|{:<12?}", a, b);
                 if !dbg_ok {
                     bad(vs, ty, "Debug", a, b, &format!("{:?}", ca), &format!("{:?}", a));
+                }
+                // Pointer formatting and Borrow / AsRef / Deref agree on the address of the value
+                let pa: &T = &ca;
+                let pb: &T = std::borrow::Borrow::borrow(&ca);
+                let pc: &T = ca.as_ref();
+                if format!("{:p}", ca) != format!("{:p}", pa as *const T) || pa as *const T != pb as *const T || pa as *const T != pc as *const T {
+                    bad(vs, ty, "Pointer/Borrow/AsRef address", a, b, &format!("{:p}", ca), &format!("{:p}", pa as *const T));
                 }
             }
             if st.samples.len() < 6 && st.pairs % 7 == 1 {
@@ -79,6 +86,17 @@ fn total<T: Trace + Clone + Ord + Hash + Debug + 'static>(ty: &str, vals: &[T], 
             if ca.clone().max(cb.clone()) != Cc::new(a.clone().max(b.clone())) || ca.clone().min(cb.clone()) != Cc::new(a.clone().min(b.clone())) {
                 bad(vs, ty, "max/min", a, b, &"?", &"?");
             }
+            // a pointer and its own clone compare like the value with itself
+            let cc2 = ca.clone();
+            if ca.cmp(&cc2) != a.cmp(a) || (ca == cc2) != (a == a) {
+                bad(vs, ty, "cmp/eq with its own clone", a, a, &ca.cmp(&cc2), &a.cmp(a));
+            }
+            // hash-map lookups through Borrow<T> rely on identical hashes
+            let mut set: std::collections::HashSet<Cc<T>> = std::collections::HashSet::new();
+            set.insert(ca.clone());
+            if !set.contains(a) {
+                bad(vs, ty, "HashSet<Cc<T>>::contains(&T)", a, a, &false, &true);
+            }
             if h(&ca) != h(a) || h(&cb) != h(b) {
                 bad(vs, ty, "hash", a, b, &h(&ca), &h(a));
             }
@@ -94,7 +112,7 @@ fn display<T: Trace + Clone + Display + Debug + 'static>(ty: &str, vals: &[T], s
     for a in vals {
         st.evaluations += 2;
         let c = Cc::new(a.clone());
-        if format!("{}", c) != format!("{}", a) || format!("{:>9}|{:<7}", c, c) != format!("{:>9}|{:<7}", a, a) {
+        if format!("{}", c) != format!("{}", a) || format!("{:>9}|{:<7}", c, c) != format!("{:>9}|{:<7}", a, a) || format!("{:^11.3}|{:+}", c, c) != format!("{:^11.3}|{:+}", a, a) || format!("{:08.2}", c) != format!("{:08.2}", a) {
             bad(vs, ty, "Display", a, a, &format!("{}", c), &format!("{}", a));
         }
     }
